@@ -277,15 +277,27 @@ def pin (dim : Nat) (hasKind : Bool) : P In := do
 
 def firstSome (l : List (Unit → Option String)) : Option String := l.findSome? fun f => f ()
 
+partial def chunks {α} (k : Nat) (l : List α) : List (List α) :=
+  if k = 0 || l.isEmpty then [] else l.take k :: chunks k (l.drop k)
+def rotations {α} (l : List α) : List (List α) := (List.range l.length).map fun i => l.drop i ++ l.take i
+
 def judge (dim : Nat) (I : In) (O : Out) : String :=
   let sc (p : Q3) : Q3 := p.cmul I.s
   let size : Rat := O.prims.foldl (fun m p => p.foldl (fun m v => rmax m (rmax (rabs v.x) (rmax (rabs v.y) (rabs v.z)))) m) 1
   let P := O.prims.toArray
+  let mirrored : Bool := I.s.x * I.s.y * I.s.z < 0
   let r := firstSome [
     -- data
     fun _ => if O.prims.length != I.prims.length then some s!"primitive-count-{O.prims.length}-expected-{I.prims.length}" else none,
     fun _ => match I.expToks with
-      | some e => if e != O.primToks then some "vertices-not-the-scaled-vertices-bit-for-bit" else none
+      | some e =>
+        if e == O.primToks then none else
+        -- triangles: the same scaled vertices bit for bit, winding kept (any rotation) — only a mirroring scale may reverse it
+        if I.kind != "trimesh" || e.length != O.primToks.length then some "vertices-not-the-scaled-vertices-bit-for-bit" else
+        let ok := ((chunks (3 * dim) e).zip (chunks (3 * dim) O.primToks)).all fun (te, tx) =>
+          let ve := chunks dim te; let vo := chunks dim tx
+          (rotations ve).contains vo || (mirrored && (rotations ve.reverse).contains vo)
+        if ok then none else some "vertices-not-the-scaled-vertices-bit-for-bit(or-winding-reversed-by-a-non-mirroring-scale)"
       | none => if (I.prims.zip O.prims).all fun (a, b) => a.length == b.length && (a.zip b).all fun (v, w) => near3 w (sc v) then none
                 else some "primitives-not-the-scaled-primitives",
     -- acceleration structure
@@ -315,6 +327,8 @@ def judge (dim : Nat) (I : In) (O : Out) : String :=
         match insideParity qp O.prims, insideParity p I.prims with
         | some e, some e0 =>
           if e != e0 then none else     -- `p ∘ s` was rounded across the surface: not judged
+          -- the whole solid inverted by a mirroring scale: one verdict (the winding of an ORIENTED mesh must be reversed)
+          if mirrored && ins != e && con != e then some s!"oriented-mesh-inside-out-under-mirror-scale:is_inside={ins}-for-{fmt3 qp}-which-is-{if e then "inside" else "outside"}-the-scaled-solid" else
           if ins != e then some s!"is_inside={ins}-for-{fmt3 qp}-but-the-point-is-{if e then "inside" else "outside"}-the-scaled-solid(original-point-{fmt3 p})" else
           if con != e then some s!"contains_local_point={con}-for-{fmt3 qp}-but-the-point-is-{if e then "inside" else "outside"}-the-scaled-solid" else none
         | _, _ => none) ]
